@@ -22,6 +22,7 @@ func init() {
 	sim.RegisterKind("connid-unbacked", "C16")
 	sim.RegisterKind("connect-unexpected", "C16")
 	sim.RegisterKind("connect-dup-code", "C16")
+	sim.RegisterKind("connect-accepted-denied", "C01", "C16")
 	sim.RegisterKind("attempt-unpermitted", "C16", "C02")
 	sim.RegisterKind("attempt-missing", "C16")
 	sim.RegisterKind("bind-accepted", "C16", "C03")
@@ -171,6 +172,30 @@ func (x *c16) opConnect(c *sim.RawClient) {
 			x.rec.Violate("connid-unbacked", "source", "peer connection comes from %s, the relayed address is %s", pe.RemoteAddr(), a.Relay)
 		}
 		x.addConn(&mConn{id: id, peer: p.addr.String(), peerEnd: pe, created: time.Now(), owner: c})
+	}
+}
+
+// opConnectRefused: Connect toward a peer the permission handler refuses must fail and must not
+// create an outbound connection.
+func (x *c16) opConnectRefused(c *sim.RawClient) {
+	a, st := x.m.Alloc(c)
+	if a == nil || st != sim.Live {
+		return
+	}
+	l, err := x.w.Net.ListenTCP(net.IPv4(10, 2, 8, 8).To4(), 8800+x.rng.Intn(100))
+	if err != nil {
+		return
+	}
+	defer l.Close() //nolint:errcheck
+	before := x.w.Gen.CallCount("conn")
+	resp := x.m.Connect(c, l.TCPAddr())
+	code := codeOfMsg(resp)
+	x.rec.FP("connect/refused-peer/%d", code)
+	if code == 0 {
+		x.rec.Violate("connect-accepted-denied", "success", "Connect toward %s, which the permission handler refuses, answered success", l.TCPAddr())
+	}
+	if x.w.Gen.CallCount("conn") != before {
+		x.rec.Violate("connect-accepted-denied", "dialed", "the server opened a connection toward refused peer %s", l.TCPAddr())
 	}
 }
 
@@ -491,7 +516,11 @@ func runC16(t *testing.T, rng *rand.Rand, rec *sim.Rec, tier string, caseNo int)
 		c := pick(rng, clients)
 		switch rng.Intn(12) {
 		case 0, 1, 2:
-			x.opConnect(c)
+			if rng.Intn(5) == 0 {
+				x.opConnectRefused(c)
+			} else {
+				x.opConnect(c)
+			}
 		case 3, 4:
 			x.opInbound(c, true)
 		case 5:
